@@ -23,7 +23,7 @@ RULE = (
     "the second generation write(parse(write(x))) parses to the same shapes as the first. Non-trivial = at least two shapes."
 )
 BUDGET = {"quick": 6000, "thorough": 200000}
-TIME_CAP = {"quick": 90, "thorough": 1700}
+TIME_CAP = {"quick": 240, "thorough": 1700}
 ANCHORS = ["_write_node", "tostring", "write", "_pretty_print", "SVG.parse", "Rect.reify", "_RoundShape.reify", "Matrix.inverse"]
 REQUIRED_MONITORS = ["well-formed", "shape-list", "geometry", "paint", "second-generation", "file-output", "source-unchanged"]
 STRATA = ["parsed-reified", "parsed-lazy", "built", "built-viewbox"]
@@ -136,6 +136,28 @@ def gen_built(R, viewbox):
     return t
 
 
+FOREIGN_ATTRS = [("xlink:title", "a title"), ("xlink:role", "r"), ("data-note", 'a<b & "c" \'d\' >'), ("ink:label", "layer 1"), ("xml:space", "preserve"),
+                 ("aria-label", "x\ty"), ("ink:groupmode", "layer"), ("data-empty", ""), ("xlink:title", "caf\u00e9 \u2264")]
+
+
+def add_foreign(R, doc):
+    """content the writer must carry or drop without damaging the text: attributes in the xlink / xml / a foreign namespace, attribute
+    values with XML-special characters, and non-shape elements (text, image with xlink:href, descriptive, unknown) among the shapes"""
+    from . import c10
+    doc.setdefault("attrs", {})["xmlns:ink"] = "http://www.inkscape.org/namespaces/inkscape"
+    nodes = [n for n in GD.walk(doc) if n["tag"] != "defs"]
+    for _ in range(R.randint(1, 3)):
+        k, v = R.choice(FOREIGN_ATTRS)
+        R.choice(nodes).setdefault("attrs", {})[k] = v
+    if R.random() < 0.5:
+        c10.add_other_elements(R, doc)
+        for n in GD.walk(doc):
+            if n["tag"] == "image" and R.random() < 0.7:
+                n["attrs"]["xlink:href"] = n["attrs"].pop("href")
+            if n["tag"] in ("text", "title", "desc") and n.get("text") and R.random() < 0.5:
+                n["text"] = "a &lt; b &amp; c"
+
+
 def gen_case(R, index, tier):
     st = STRATA[index % len(STRATA)]
     how = R.choice(["string", "string", "file", "svgz"])
@@ -144,6 +166,8 @@ def gen_case(R, index, tier):
         if R.random() < 0.5:
             opts.update(nested_svg=0.0, use=0.0)
         doc = GD.add_paint(R, GD.generate(R, opts), 0.3)
+        if R.random() < 0.35:
+            add_foreign(R, doc)
         return {"stratum": st, "doc": doc, "reify": st == "parsed-reified", "how": how, "features": sorted({n["tag"] for n in GD.walk(doc) if n["tag"] in ("use",) or (n["tag"] == "svg" and not n.get("root"))})}
     return {"stratum": st, "tree": gen_built(R, st == "built-viewbox"), "how": how, "reify_built": R.random() < 0.5}
 
